@@ -31,8 +31,9 @@ package groupsig
 //@   modifies nothing
 
 //@ func DeserializeSign
-//@   option trusted
+//@   property C14
 //@   ensures result != nil && fresh(result)
+//@   ensures [nilsig] !(len(b) == 64 && canonCoord(b, 0) && canonCoord(b, 32)) ==> result.value.p == nil
 //@   modifies nothing
 
 //@ func Signature.Serialize
@@ -59,3 +60,25 @@ package groupsig
 //@   option trusted
 //@   ensures ghost(recattempts) == old(ghost(recattempts)) + 1
 //@   modifies ghost(recattempts)
+
+// ---------------------------------------------------------------------------------------------
+// Wire form of signatures and public keys (C14, the encoding clause): a byte string is accepted as a signature
+// only if it is exactly 64 bytes with both coordinates in canonical form (below the field modulus; the curve
+// check is bn256's), as a public key only if it starts with 128 such bytes; a rejected signature encoding leaves
+// the nil signature, which VerifySig refuses. Together with Marshal being a function of the point this is what
+// "no byte string other than the honest signature verifies" needs from the decoder; the pairing equation itself
+// is not within reach (DESIGN section 5).
+//@ func Signature.Deserialize
+//@   property C14
+//@   requires sig != nil
+//@   ensures [length]  result == nil ==> len(b) == 64
+//@   ensures [canon]   result == nil ==> canonCoord(b, 0) && canonCoord(b, 32)
+//@   ensures [cleared] result != nil && len(b) != 0 ==> sig.value.p == nil
+//@   ensures [empty]   len(b) == 0 ==> result != nil && sig.value.p == old(sig.value.p)
+//@   modifies sig.value, *sig.value.p
+
+//@ func Pubkey.Deserialize
+//@   property C14
+//@   requires pub != nil
+//@   ensures [length] result == nil ==> len(b) >= 128
+//@   ensures [canon]  result == nil ==> canonCoord(b, 0) && canonCoord(b, 32) && canonCoord(b, 64) && canonCoord(b, 96)
